@@ -44,6 +44,11 @@ func (k msgServer) CreatePool(ctx context.Context, msg *types.MsgCreatePool) (*t
 	if err != nil {
 		return nil, errorsmod.Wrap(err, "invalid base offset")
 	}
+	// the price <-> tick conversion walks the price grid one tick at a time without gas
+	// metering: the grid must be a real one (ratio well above one), fees below 100 %
+	if err := types.ValidatePoolParams(feeRate, priceRatio, baseOffset); err != nil {
+		return nil, err
+	}
 
 	var pool = types.Pool{
 		DenomBase:  msg.DenomBase,
